@@ -171,3 +171,11 @@ package querylog
 //@   modifies *
 //@   ensures page-size: old(params.limit) >= 0 && old(params.offset) >= 0 ==> len(entries) <= old(params.limit)
 //@   ensures malformed-page-empty: old(params.limit) <= 0 || old(params.offset) < 0 ==> len(entries) == 0
+
+// ---- C11: routes are registered through the authenticating helper with a non-empty method ----
+// (an empty method is reserved for the DNS-over-HTTPS resolver paths and skips authentication in home.httpRegister)
+//@ package-callsite functype:github.com/AdguardTeam/AdGuardHome/internal/aghhttp.RegisterFunc(method, url, handler) requires method != "" || url == "/dns-query" || url == "/dns-query/"
+//@ sweep C11 functype:github.com/AdguardTeam/AdGuardHome/internal/aghhttp.RegisterFunc
+//@ func (l *queryLog) initWeb()
+//@   property C11
+//@   modifies *
